@@ -963,4 +963,319 @@ theorem step_defmethod_inv {vm : List Msg} {h : List Form} {st : State} (hI : In
     rw [hprec]
     exact hI.slots g hg s
 
+/-! ## Part 6: running a valid history -/
+
+theorem runFrom_append (st : State) (h1 h2 : List Form) :
+    runFrom st (h1 ++ h2) = match runFrom st h1 with
+      | .ok st' => runFrom st' h2
+      | .error e => .error e := by
+  induction h1 generalizing st with
+  | nil => rfl
+  | cons f h1 ih =>
+    simp only [List.cons_append, runFrom]
+    cases step st f with
+    | ok st' => exact ih st'
+    | error e => rfl
+
+/-- every valid history (given newest first) runs, and the state it reaches is the specification -/
+theorem run_inv (vm : List Msg) (hr : List Form) (hv : validR hr = true) :
+    ∃ st, run vm hr.reverse = .ok st ∧ Inv vm hr st := by
+  induction hr with
+  | nil => exact ⟨init vm, rfl, inv_init vm⟩
+  | cons f older ih =>
+    obtain ⟨st, hrun, hI⟩ := ih (validR_tail hv)
+    have hstep : ∃ st', step st f = .ok st' ∧ Inv vm (f :: older) st' := by
+      cases f with
+      | defflavor n cs sl => exact step_defflavor_inv hI hv
+      | defmethod fl k m id => exact step_defmethod_inv hI hv
+    obtain ⟨st', hs, hI'⟩ := hstep
+    refine ⟨st', ?_, hI'⟩
+    unfold run at hrun ⊢
+    rw [List.reverse_cons, runFrom_append, hrun]
+    simp [runFrom, hs]
+
+/-! ## Part 7: the order of a send -/
+
+theorem callFrom_spec (all rest : List Combo) :
+    callFrom all rest = (rest.filterMap (·.whopper)).map Ev.whopIn ++ innerCall all
+      ++ ((rest.filterMap (·.whopper)).reverse.map Ev.whopOut) := by
+  induction rest with
+  | nil => simp [callFrom]
+  | cons c rest ih =>
+    cases hw : c.whopper with
+    | none => simp [callFrom, hw, List.filterMap_cons, ih]
+    | some w => simp [callFrom, hw, List.filterMap_cons, ih]
+
+theorem comboR_get (vm : List Msg) (h : List Form) (m : Msg) (g : Name) (k : Kind) :
+    (comboR vm h m g).bind (fun c => c.get k) = daemonVR vm h m k g := by
+  unfold comboR daemonVR
+  by_cases hg : g = vanilla
+  · simp only [hg, if_true]
+    unfold vanillaTab
+    by_cases hm : m ∈ vm <;> cases k <;> simp [hm, Combo.get]
+  · simp only [hg, if_false]
+    cases k
+    all_goals
+      generalize daemonR h g Kind.primary m = P
+      generalize daemonR h g Kind.before m = B
+      generalize daemonR h g Kind.after m = A
+      generalize daemonR h g Kind.whopper m = W
+      cases P <;> cases B <;> cases A <;> cases W <;> simp [Combo.get]
+
+theorem specCombosR_get (vm : List Msg) (h : List Form) (fl : Name) (m : Msg) (k : Kind) :
+    (specCombosR vm h fl m).filterMap (fun c => c.get k) = daemonsR vm h fl m k := by
+  unfold specCombosR daemonsR
+  rw [List.filterMap_filterMap]
+  exact filterMap_congr' (fun g _ => comboR_get vm h m g k)
+
+theorem sendTrace_spec (vm : List Msg) (h : List Form) (fl : Name) (m : Msg) :
+    sendTrace (specCombosR vm h fl m) = specTraceR vm h fl m := by
+  unfold sendTrace specTraceR
+  rw [callFrom_spec]
+  unfold innerCall
+  have hw := specCombosR_get vm h fl m .whopper
+  have hb := specCombosR_get vm h fl m .before
+  have hp := specCombosR_get vm h fl m .primary
+  have ha := specCombosR_get vm h fl m .after
+  simp only [Combo.get] at hw hb hp ha
+  rw [hw, hb, hp, ha]
+  simp only [List.append_assoc]
+
+theorem sendResult_spec (vm : List Msg) (h : List Form) (fl : Name) (m : Msg) :
+    sendResult (specCombosR vm h fl m) = (daemonsR vm h fl m .primary).head? := by
+  unfold sendResult
+  have hp := specCombosR_get vm h fl m .primary
+  simp only [Combo.get] at hp
+  rw [hp]
+
+/-! ## Part 8: the specification does not depend on the order of the forms -/
+
+theorem flatMap_congr' {α β : Type} {f g : α → List β} {l : List α} (h : ∀ x ∈ l, f x = g x) :
+    l.flatMap f = l.flatMap g := by
+  induction l with
+  | nil => rfl
+  | cons a l ih =>
+    simp only [List.flatMap_cons, h a (List.mem_cons_self ..),
+      ih (fun x hx => h x (List.mem_cons_of_mem _ hx))]
+
+theorem mem_definedR_iff {h : List Form} {n : Name} :
+    n ∈ definedR h ↔ ∃ cs sl, Form.defflavor n cs sl ∈ h := by
+  induction h with
+  | nil => simp [definedR]
+  | cons f h ih =>
+    cases f with
+    | defflavor n0 cs0 sl0 =>
+      simp only [definedR, List.mem_cons, ih]
+      constructor
+      · rintro (e | ⟨cs, sl, hm⟩)
+        · exact ⟨cs0, sl0, Or.inl (by rw [e])⟩
+        · exact ⟨cs, sl, Or.inr hm⟩
+      · rintro ⟨cs, sl, e | hm⟩
+        · injection e with e1
+          exact Or.inl e1
+        · exact Or.inr ⟨cs, sl, hm⟩
+    | defmethod fl k m id =>
+      simp only [definedR, List.mem_cons, ih]
+      constructor
+      · rintro ⟨cs, sl, hm⟩
+        exact ⟨cs, sl, Or.inr hm⟩
+      · rintro ⟨cs, sl, e | hm⟩
+        · cases e
+        · exact ⟨cs, sl, hm⟩
+
+/-- components are defined -/
+theorem comps_defined {h : List Form} (hv : validR h = true) {n : Name} {cs : List Name}
+    {sl : List (Slot × Option Int)} (hm : Form.defflavor n cs sl ∈ h) : ∀ c ∈ cs, c ∈ definedR h := by
+  induction h with
+  | nil => simp at hm
+  | cons f h ih =>
+    have hv' := validR_tail hv
+    have hsub : ∀ c, c ∈ definedR h → c ∈ definedR (f :: h) := by
+      intro c hc
+      cases f <;> simp [definedR, hc]
+    rcases List.mem_cons.mp hm with e | hm'
+    · subst e
+      obtain ⟨_, _, _, hcs⟩ := validR_defflavor.mp hv
+      exact fun c hc => hsub c (hcs c hc).2
+    · exact fun c hc => hsub c (ih hv' hm' c hc)
+
+/-- the recursive equation of the precedence list, with everything taken in the WHOLE history -/
+theorem precR_equation {h : List Form} (hv : validR h = true) {n : Name} {cs : List Name}
+    {sl : List (Slot × Option Int)} (hm : Form.defflavor n cs sl ∈ h) :
+    precR h n = n :: dedup (cs.flatMap (fun c => precR h c)) := by
+  induction h with
+  | nil => simp at hm
+  | cons f h ih =>
+    have hv' := validR_tail hv
+    rcases List.mem_cons.mp hm with e | hm'
+    · subst e
+      obtain ⟨_, _, _, hcs⟩ := validR_defflavor.mp hv
+      have : cs.flatMap (fun c => precR (Form.defflavor n cs sl :: h) c) = cs.flatMap (fun c => precR h c) :=
+        flatMap_congr' (fun c hc => precR_cons_of_defined hv (hcs c hc).2)
+      rw [this]
+      simp [precR]
+    · have hn : n ∈ definedR h := mem_definedR_iff.mpr ⟨cs, sl, hm'⟩
+      have hcs := comps_defined hv' hm'
+      have : cs.flatMap (fun c => precR (f :: h) c) = cs.flatMap (fun c => precR h c) :=
+        flatMap_congr' (fun c hc => precR_cons_of_defined hv (hcs c hc))
+      rw [this, precR_cons_of_defined hv hn]
+      exact ih hv' hm'
+
+/-- … and that equation has only one solution on the defined flavors -/
+theorem precR_unique {h : List Form} (hv : validR h = true) (G : Name → List Name)
+    (hG : ∀ n cs sl, Form.defflavor n cs sl ∈ h → G n = n :: dedup (cs.flatMap G)) :
+    ∀ n, n ∈ definedR h → G n = precR h n := by
+  induction h with
+  | nil => intro n hn; simp [definedR] at hn
+  | cons f h ih =>
+    have hv' := validR_tail hv
+    have ih' := ih hv' (fun n cs sl hm => hG n cs sl (List.mem_cons_of_mem _ hm))
+    intro n hn
+    cases f with
+    | defflavor n0 cs0 sl0 =>
+      obtain ⟨_, _, hn0, hcs⟩ := validR_defflavor.mp hv
+      by_cases e : n = n0
+      · subst e
+        rw [hG n cs0 sl0 (List.mem_cons_self ..)]
+        have : cs0.flatMap G = cs0.flatMap (fun c => precR h c) :=
+          flatMap_congr' (fun c hc => ih' c (hcs c hc).2)
+        rw [this]
+        simp [precR]
+      · have hn' : n ∈ definedR h := by simpa [definedR, e] using hn
+        rw [precR_cons_of_defined hv hn']
+        exact ih' n hn'
+    | defmethod fl k m id =>
+      have hn' : n ∈ definedR h := by simpa [definedR] using hn
+      rw [precR_cons_of_defined hv hn']
+      exact ih' n hn'
+
+theorem definedR_perm {h1 h2 : List Form} (hp : h1.Perm h2) (n : Name) :
+    n ∈ definedR h1 ↔ n ∈ definedR h2 := by
+  simp only [mem_definedR_iff, hp.mem_iff]
+
+theorem precR_perm {h1 h2 : List Form} (hv1 : validR h1 = true) (hv2 : validR h2 = true)
+    (hp : h1.Perm h2) {n : Name} (hn : n ∈ definedR h1) : precR h1 n = precR h2 n := by
+  have := precR_unique hv1 (fun g => precR h2 g)
+    (fun g cs sl hm => precR_equation hv2 (hp.mem_iff.mp hm)) n hn
+  exact this.symm
+
+theorem daemonR_mem {h : List Form} {g : Name} {k : Kind} {m : Msg} {id : Mid}
+    (hd : daemonR h g k m = some id) : Form.defmethod g k m id ∈ h := by
+  induction h with
+  | nil => simp [daemonR] at hd
+  | cons f h ih =>
+    cases f with
+    | defflavor n cs sl =>
+      simp only [daemonR] at hd
+      exact List.mem_cons_of_mem _ (ih hd)
+    | defmethod fl k' m' id' =>
+      simp only [daemonR] at hd
+      split at hd
+      · rename_i hc
+        obtain ⟨e1, e2, e3⟩ := hc
+        injection hd with e4
+        subst e1 e2 e3 e4
+        exact List.mem_cons_self ..
+      · exact List.mem_cons_of_mem _ (ih hd)
+
+theorem mem_methodKeysR {h : List Form} {g : Name} {k : Kind} {m : Msg} {id : Mid}
+    (hm : Form.defmethod g k m id ∈ h) : (g, k, m) ∈ methodKeysR h := by
+  induction h with
+  | nil => simp at hm
+  | cons f h ih =>
+    rcases List.mem_cons.mp hm with e | hm'
+    · subst e
+      simp [methodKeysR]
+    · cases f <;> simp [methodKeysR, ih hm']
+
+theorem methodKeysR_eq_filterMap (h : List Form) :
+    methodKeysR h = h.filterMap (fun f => match f with
+      | .defmethod fl k m _ => some (fl, k, m)
+      | .defflavor .. => none) := by
+  induction h with
+  | nil => rfl
+  | cons f h ih => cases f <;> simp [methodKeysR, List.filterMap_cons, ih]
+
+theorem methodKeysR_nodup_perm {h1 h2 : List Form} (hp : h1.Perm h2) (hu : (methodKeysR h1).Nodup) :
+    (methodKeysR h2).Nodup := by
+  rw [methodKeysR_eq_filterMap] at hu ⊢
+  exact (hp.filterMap _).nodup_iff.mp hu
+
+/-- with one form per (flavor, kind, message) the form found is the form there is -/
+theorem daemonR_of_mem {h : List Form} (hu : (methodKeysR h).Nodup) {g : Name} {k : Kind} {m : Msg}
+    {id : Mid} (hm : Form.defmethod g k m id ∈ h) : daemonR h g k m = some id := by
+  induction h with
+  | nil => simp at hm
+  | cons f h ih =>
+    cases f with
+    | defflavor n cs sl =>
+      simp only [methodKeysR] at hu
+      rcases List.mem_cons.mp hm with e | hm'
+      · cases e
+      · simpa [daemonR] using ih hu hm'
+    | defmethod fl k' m' id' =>
+      simp only [methodKeysR, List.nodup_cons] at hu
+      rcases List.mem_cons.mp hm with e | hm'
+      · injection e with e1 e2 e3 e4
+        subst e1 e2 e3 e4
+        simp [daemonR]
+      · simp only [daemonR]
+        split
+        · rename_i hc
+          obtain ⟨e1, e2, e3⟩ := hc
+          subst e1 e2 e3
+          exact absurd (mem_methodKeysR hm') hu.1
+        · exact ih hu.2 hm'
+
+theorem daemonR_perm {h1 h2 : List Form} (hp : h1.Perm h2) (hu : (methodKeysR h1).Nodup)
+    (g : Name) (k : Kind) (m : Msg) : daemonR h1 g k m = daemonR h2 g k m := by
+  have hu2 := methodKeysR_nodup_perm hp hu
+  cases hd : daemonR h1 g k m with
+  | some id => exact (daemonR_of_mem hu2 (hp.mem_iff.mp (daemonR_mem hd))).symm
+  | none =>
+    cases hd2 : daemonR h2 g k m with
+    | none => rfl
+    | some id =>
+      have := daemonR_of_mem hu (hp.mem_iff.mpr (daemonR_mem hd2))
+      rw [hd] at this
+      cases this
+
+theorem comboR_perm {h1 h2 : List Form} (hp : h1.Perm h2) (hu : (methodKeysR h1).Nodup)
+    (vm : List Msg) (m : Msg) (g : Name) : comboR vm h1 m g = comboR vm h2 m g := by
+  simp only [comboR, daemonR_perm hp hu]
+
+theorem ownSlotR_of_mem {h : List Form} (hv : validR h = true) {g : Name} {cs : List Name}
+    {sl : List (Slot × Option Int)} (hm : Form.defflavor g cs sl ∈ h) (s : Slot) :
+    ownSlotR h g s = lookupSlot sl s := by
+  induction h with
+  | nil => simp at hm
+  | cons f h ih =>
+    have hv' := validR_tail hv
+    rcases List.mem_cons.mp hm with e | hm'
+    · subst e
+      simp [ownSlotR]
+    · have hg : g ∈ definedR h := mem_definedR_iff.mpr ⟨cs, sl, hm'⟩
+      rw [ownSlotR_cons_of_defined hv hg]
+      exact ih hv' hm'
+
+theorem ownSlotR_perm {h1 h2 : List Form} (hv1 : validR h1 = true) (hv2 : validR h2 = true)
+    (hp : h1.Perm h2) {g : Name} (hg : g ∈ definedR h1) (s : Slot) :
+    ownSlotR h1 g s = ownSlotR h2 g s := by
+  obtain ⟨cs, sl, hm⟩ := mem_definedR_iff.mp hg
+  rw [ownSlotR_of_mem hv1 hm, ownSlotR_of_mem hv2 (hp.mem_iff.mp hm)]
+
+theorem specCombosR_perm {h1 h2 : List Form} (hv1 : validR h1 = true) (hv2 : validR h2 = true)
+    (hp : h1.Perm h2) (hu : (methodKeysR h1).Nodup) (vm : List Msg) {fl : Name} (hfl : fl ∈ definedR h1)
+    (m : Msg) : specCombosR vm h1 fl m = specCombosR vm h2 fl m := by
+  unfold specCombosR flattenR
+  rw [precR_perm hv1 hv2 hp hfl]
+  exact filterMap_congr' (fun g _ => comboR_perm hp hu vm m g)
+
+theorem specSlotR_perm {h1 h2 : List Form} (hv1 : validR h1 = true) (hv2 : validR h2 = true)
+    (hp : h1.Perm h2) {fl : Name} (hfl : fl ∈ definedR h1) (s : Slot) :
+    specSlotR h1 fl s = specSlotR h2 fl s := by
+  unfold specSlotR
+  rw [← precR_perm hv1 hv2 hp hfl]
+  exact findSome_congr' (fun g hg => ownSlotR_perm hv1 hv2 hp (mem_precR_defined hv1 hg) s)
+
 end SlipVerif.Flavors
